@@ -71,7 +71,7 @@ def select_configs(mode, want):
     return out
 
 
-def run_block(ctx, sh, mode, configs, oracle, flags=(True, False), per_dataset=None, only=None):
+def run_block(ctx, sh, mode, configs, oracle, flags=(True, False), per_dataset=None, only=None, ds_filter=None):
     from .lib import mk_dataset, mk_scheme, labels_for, Back
     schemes = SCHEME_KINDS[sh.get('schemes', 'all')] if isinstance(sh.get('schemes', 'all'), str) else sh['schemes']
     n, lname = sh['n'], sh['labels']
@@ -81,6 +81,9 @@ def run_block(ctx, sh, mode, configs, oracle, flags=(True, False), per_dataset=N
     else:
         it = spaces.ds_iter_strided(n, sh['m'], sh['shard'], sh['nshards'])
     for index, ds in it:
+        if ds_filter is not None and not ds_filter(ds):
+            ctx.count('datasets_outside_the_filter')
+            continue
         universe = spaces.universe_of(ds)
         back = Back(labels, universe)
         ctx.cases += 1
